@@ -82,7 +82,7 @@ def _gen_seqs(rng, kind):
     n = rng.choice([2, 2, 3, 3, 4, 5, 6, 9, 10, 11, 12, 14])
     mode = rng.choice(["random", "random", "equal", "len1", "related"])
     if t == "custom":
-        k = rng.randint(3, 24)
+        k = rng.randint(3, 24) if rng.random() < 0.93 else rng.randint(25, 30)  # more symbols than amino acids: refused
         alph = [f"s{j}" for j in range(k)] if rng.random() < 0.5 else list(range(10, 10 + k))
         letters = list(range(k))
     else:
@@ -247,6 +247,9 @@ def generate(rng):
         if r < 0.19:
             # the caller's own code changes the working directory between two wrapper calls
             ops.append({"op": "chdir", "dir": rng.choice(["cwd0", "cwd1", "cwd1"])})
+            continue
+        if r < 0.20:
+            ops.append({"op": "cleanup_helper", "delete": rng.random() < 0.5, "already_gone": rng.random() < 0.3, "mode": rng.choice(["w", "r", "w+b"])})
             continue
         if kind not in ("stublocal", "stubpoll") and rng.random() < 0.02 and w["script"]["dur"] is not None:
             ops.append({"w": cur, "op": "align"})
@@ -641,6 +644,10 @@ class Sim:
             self.log.add({"i": self.step, "op": "advance", "dt": op["dt"], "now": round(self.world.now - sw.EPOCH, 3)})
             self.check_invariants("advance")
             return
+        if name == "cleanup_helper":
+            self.op_cleanup_helper(op)
+            self.check_invariants("cleanup_helper")
+            return
         if name == "chdir":
             self.cur_cwd = os.path.join(self.root, op["dir"])
             os.chdir(self.cur_cwd)
@@ -679,6 +686,32 @@ class Sim:
         self.log.add({"i": self.step, "w": w, "op": name, "pre": pre, "out": outcome, "post": rec.state,
                       "now": round(self.world.now - sw.EPOCH, 3), "tmp": len(os.listdir(self.tmp))})
         self.check_invariants(name)
+
+    def op_cleanup_helper(self, op):
+        """cleanup_tempfile(): the public helper the wrappers use; whatever kind of NamedTemporaryFile it gets,
+        afterwards the file is closed and gone, and an already deleted file is not an error."""
+        from biotite.application.localapp import cleanup_tempfile
+
+        f = tempfile.NamedTemporaryFile(op["mode"], suffix=".helper", delete=op["delete"])
+        path = f.name
+        if op["already_gone"]:
+            os.remove(path)
+        st, v = call(cleanup_tempfile, f)
+        if st == "exc":
+            try:
+                f.close()
+            except Exception:  # noqa: BLE001
+                pass
+            if os.path.exists(path):
+                os.remove(path)
+            self.fail("helper:cleanup_tempfile-raised", got=exc_name(v), delete=op["delete"], already_gone=op["already_gone"])
+        if os.path.exists(path):
+            os.remove(path)
+            self.fail("helper:cleanup_tempfile-left-file", delete=op["delete"])
+        if not f.closed:
+            f.close()
+            self.fail("helper:cleanup_tempfile-left-open", delete=op["delete"])
+        self.log.add({"i": self.step, "op": "cleanup_helper", "out": "ok"})
 
     # -- construction
     def op_create(self, rec):
@@ -731,6 +764,8 @@ class Sim:
                 elif matrix is not None and ws["matrix"].get("asym") and k in ("muscle3", "mafft"):
                     expected_exc = (ValueError,)
                 elif t == "custom" and k in ("clustalo", "muscle5"):
+                    expected_exc = (TypeError,)
+                elif t == "custom" and len(ws["seqs"]["alphabet"]) > 24:
                     expected_exc = (TypeError,)
                 elif t == "custom" and matrix is None:
                     expected_exc = (TypeError,)
@@ -1318,7 +1353,7 @@ class Sim:
         if (ws.get("version") or {}).get("kind", "ok") != "ok":
             return
         t = ws["seqs"]["type"]
-        if t == "custom" and k in ("clustalo", "muscle5"):
+        if t == "custom" and (k in ("clustalo", "muscle5") or len(ws["seqs"]["alphabet"]) > 24):
             return
         rec = WRec(rec0.idx, ws)
         rec.exec_dir_path = None
